@@ -85,74 +85,24 @@ def r1_split_then_decode(run):
         raise UnknownIdiom('%s: field loop iterates %s' % (PQS, short(it)))
     run.check(it.args[0].value == '&' and len(it.args) == 1, 'fields are obtained by splitting the whole query string on "&"', f, it)
 
-    def is_decode(e) -> bool:
-        return isinstance(e, ast.Call) and resolves_to(p, f, e, DECODE)
-
-    def classify(d) -> str:
-        if d.how == 'unpack' and d.stmt is part:
-            return 'raw'
-        if d.value is not None and is_decode(d.value):
-            return 'decoded'
-        if d.value is not None and isinstance(d.value, ast.Name):
-            return 'copy:' + d.value.id
-        return '?'
-
-    # the CSV splits
-    splits = [n for n in walk_no_nested(f.node) if _method_call(n, 'split', ',')]
-    if not splits:
-        raise AnchorError('%s: no split(",") found (CSV support removed?)' % PQS)
-    for sp in splits:
-        nid = node_of(cfg, sp)
-        recv = sp.func.value
-        if not isinstance(recv, ast.Name):
-            raise UnknownIdiom('%s: split(",") applied to %s' % (PQS, short(recv)))
-        defs = rd.at(nid, recv.id)
-        kinds = {classify(d) for d in defs}
-        if not kinds or '?' in kinds or any(k.startswith('copy:') for k in kinds):
-            raise UnknownIdiom('%s: cannot classify the definitions of %s reaching %s: %s' % (PQS, recv.id, short(sp), defs))
-        run.check(kinds == {'raw'}, 'the comma split is applied to the UNDECODED value on every path (an encoded %2C never splits)', f, sp,
-                  witness=['%s:%s  %s' % (f.file, getattr(d.stmt, 'lineno', '?'), short(d.stmt, 80)) for d in defs if classify(d) != 'raw'],
-                  runtime_witness='?a=1%2C2 with auto_parse_qs_csv parsed as ["1", "2"] instead of "1,2"')
-        run.check(fact_value(cfg, nid, lambda e: _is_name(e, csv)) is True,
-                  'the comma split happens only when the csv flag is set', f, sp,
-                  runtime_witness='?a=1,2 split although auto_parse_qs_csv is off')
-        # what happens to the pieces
-        up = par.get(id(sp))
-        comps = []
-        if isinstance(up, ast.Assign) and len(up.targets) == 1 and isinstance(up.targets[0], ast.Name):
-            vals = up.targets[0].id
-            for n in walk_no_nested(f.node):
-                if isinstance(n, ast.Name) and n.id == vals and isinstance(n.ctx, ast.Load):
-                    # which definitions reach this use?  only those of this split matter
-                    use_nid = _use_node(cfg, n)
-                    if not any(d.stmt is up for d in rd.at(use_nid, vals)):
-                        continue
-                    c = par.get(id(n))
-                    if not (isinstance(c, ast.comprehension) and c.iter is n):
-                        raise UnknownIdiom('%s: pieces of the comma split are used outside a comprehension: %s' % (PQS, short(par.get(id(n)))))
-                    comps.append((c, _owner_comp(par, c), use_nid))
-        elif isinstance(up, ast.comprehension) and up.iter is sp:
-            comps.append((up, _owner_comp(par, up), nid))
-        else:
-            raise UnknownIdiom('%s: result of split(",") flows into %s' % (PQS, short(up)))
-        if not comps:
-            raise UnknownIdiom('%s: pieces of %s are never used' % (PQS, short(sp)))
-        for c, owner, unid in comps:
-            if not isinstance(c.target, ast.Name):
-                raise UnknownIdiom('%s: comprehension target %s' % (PQS, short(c.target)))
-            elt = owner.elt if isinstance(owner, (ast.ListComp, ast.GeneratorExp, ast.SetComp)) else None
-            ok = elt is not None and is_decode(elt) and elt.args and _is_name(elt.args[0], c.target.id)
-            run.check(ok, 'every piece of the comma split is decoded individually before it is stored', f, owner,
-                      runtime_witness='?a=x%20y,z with csv parsing yields "x%20y" undecoded')
-            # blank pieces: dropped iff not keep_blank
-            for cond in c.ifs:
-                if not _is_name(cond, c.target.id):
-                    raise UnknownIdiom('%s: piece filter %s' % (PQS, short(cond)))
-            kb = fact_value(cfg, unid, lambda e: _is_name(e, keep_blank))
-            run.check((bool(c.ifs) and kb is False) or (not c.ifs and kb is True),
-                      'blank pieces of a comma-separated value are dropped iff keep_blank is off', f, owner,
-                      witness=['filter: %s; keep_blank known %s here' % ('yes' if c.ifs else 'no', kb)],
-                      runtime_witness='?a=1,,2 yields a blank element although keep_blank_qs_values is off (or loses it although it is on)')
+    # the CSV splits and what becomes of their pieces: decided per path (see _CsvWalk)
+    field = loop.target.id
+    flags, supers_all, dirty, _chars = _shortcut_model(p, f, cfg, qs, kname, vname, field)
+    walk = _CsvWalk(run, p, dirty)
+    loop_iter = [n.id for n in cfg.live_nodes() if n.kind == 'iter' and n.stmt is loop]
+    env0 = {vname: _RAW, keep_blank: _Flag('keep_blank', True), csv: _Flag('csv', True)}
+    part_nid = node_of(cfg, part)
+    walk.walk(f, cfg, [y for (y, l) in cfg.succ[part_nid] if l != 'exc'], env0, {}, set(loop_iter), (), 0, None, flags, supers_all)
+    here = [n for n in walk_no_nested(f.node) if _method_call(n, 'split', ',')]
+    for sp in here:
+        if id(sp) not in walk.splits_seen:
+            raise UnknownIdiom('%s: %s is not applied on a path from the name/value partition' % (PQS, short(sp)))
+    if not walk.splits_seen:
+        raise AnchorError('%s: no split(",") of the value found (CSV support removed?)' % PQS)
+    for key, (fn, sp) in walk.split_nodes.items():
+        if key not in walk.sunk:
+            raise UnknownIdiom('%s: pieces of %s are never used' % (fn.qual, short(sp)))
+    walk.report()
 
     # dropping whole fields
     conts = [n for n in cfg.live_nodes() if n.kind == 'stmt' and isinstance(n.ast, ast.Continue)
@@ -204,6 +154,412 @@ def _use_node(cfg, name_node) -> int:
             if x is name_node:
                 return n.id
     raise AnchorError('%s: no CFG node for a use of %s' % (cfg.func.qual, name_node.id))
+
+
+# ---------------------------------------------------------------------------
+# R1: the comma split and its pieces, decided per path
+# ---------------------------------------------------------------------------
+#
+# Abstract values: the undecoded value of the field (_RAW), its decoded form (_DEC), one of the two parser options
+# (_Flag, with polarity, so `not keep_blank` handed to a helper is still the option) and the list of pieces of a
+# comma split (_Pieces: decoded? blank pieces filtered out?).  Every path from the name/value partition to the end of
+# the loop body is walked once; branch outcomes add facts (keep_blank / csv known, "the value contains nothing
+# decode() rewrites" through R15's three-valued guard model).  A module-level helper that is handed the raw value
+# or the pieces is walked the same way with its parameters standing for the arguments (inline summary).
+
+_RAW = ('raw',)
+_DEC = ('decoded',)
+
+
+class _Flag(tuple):
+    def __new__(cls, name, polarity):
+        return tuple.__new__(cls, ('flag', name, polarity))
+
+
+class _Pieces:
+    __slots__ = ('decoded', 'filtered', 'split', 'made')
+
+    def __init__(self, decoded, filtered, split, made):
+        self.decoded = decoded
+        self.filtered = filtered
+        self.split = split      # key of the split(',') the pieces come from
+        self.made = made        # (Func, statement, call context) that produced this list
+
+
+def _flag_facts(test, truth: bool, env) -> Dict[str, bool]:
+    if isinstance(test, ast.Name):
+        v = env.get(test.id)
+        return {v[1]: truth == v[2]} if isinstance(v, _Flag) else {}
+    if isinstance(test, ast.UnaryOp) and isinstance(test.op, ast.Not):
+        return _flag_facts(test.operand, not truth, env)
+    if isinstance(test, ast.NamedExpr):
+        return _flag_facts(test.value, truth, env)
+    if isinstance(test, ast.BoolOp) and ((isinstance(test.op, ast.And) and truth) or (isinstance(test.op, ast.Or) and not truth)):
+        out: Dict[str, bool] = {}
+        for v in test.values:
+            out.update(_flag_facts(v, truth, env))
+        return out
+    return {}
+
+
+_CSV_WHAT = {
+    'raw': ('the comma split is applied to the UNDECODED value on every path (an encoded %2C never splits)',
+            '?a=1%2C2 with auto_parse_qs_csv parsed as ["1", "2"] instead of "1,2"'),
+    'csv': ('the comma split happens only when the csv flag is set', '?a=1,2 split although auto_parse_qs_csv is off'),
+    'dec': ('every piece of the comma split is decoded individually before it is stored (or stored as it stands only behind '
+            'a guard proving that it contains nothing decode() rewrites)', '?a=x%20y,z with csv parsing yields "x%20y" undecoded'),
+    'blank': ('blank pieces of a comma-separated value are dropped iff keep_blank is off',
+              '?a=1,,2 yields a blank element although keep_blank_qs_values is off (or loses it although it is on)'),
+}
+
+
+class _CsvWalk:
+    MAX_DEPTH = 3
+    MAX_STEPS = 20000
+
+    def __init__(self, run, p, dirty):
+        self.run = run
+        self.p = p
+        self.dirty = dirty
+        self.obl: Dict[tuple, dict] = {}
+        self.splits_seen = set()
+        self.split_nodes: Dict[tuple, tuple] = {}
+        self.sunk = set()
+        self.steps = 0
+
+    # ---- obligations, aggregated over the paths
+    def note(self, kind, ctx, fn: Func, construct, ok: bool, why: str = ''):
+        key = (kind, ctx, fn.qual, id(construct))
+        o = self.obl.setdefault(key, {'kind': kind, 'fn': fn, 'construct': construct, 'fails': []})
+        if not ok and why not in o['fails']:
+            o['fails'].append(why)
+
+    def report(self):
+        for o in self.obl.values():
+            what, rw = _CSV_WHAT[o['kind']]
+            self.run.check(not o['fails'], what, o['fn'], o['construct'], witness=o['fails'][:4] or None, runtime_witness=rw)
+
+    # ---- expressions
+    def is_decode(self, fn, e) -> bool:
+        return isinstance(e, ast.Call) and resolves_to(self.p, fn, e, DECODE)
+
+    def tracked(self, e, env) -> bool:
+        return any(isinstance(x, ast.Name) and (env.get(x.id) is _RAW or isinstance(env.get(x.id), _Pieces)) for x in ast.walk(e))
+
+    def aeval(self, e, env, facts, fn, stmt, ctx):
+        if isinstance(e, ast.Name):
+            return env.get(e.id)
+        if isinstance(e, ast.NamedExpr):
+            return self.aeval(e.value, env, facts, fn, stmt, ctx)
+        if isinstance(e, ast.UnaryOp) and isinstance(e.op, ast.Not):
+            v = self.aeval(e.operand, env, facts, fn, stmt, ctx)
+            return _Flag(v[1], not v[2]) if isinstance(v, _Flag) else None
+        if isinstance(e, ast.Call):
+            if self.is_decode(fn, e):
+                vals = [self.aeval(a, env, facts, fn, stmt, ctx) for a in e.args]
+                if e.keywords or len(e.args) != 1:
+                    if self.tracked(e, env):
+                        raise UnknownIdiom('%s: decode() called with options: %s' % (fn.qual, short(e, 60)))
+                    return None
+                if isinstance(vals[0], _Pieces):
+                    raise UnknownIdiom('%s: decode() applied to the list of pieces: %s' % (fn.qual, short(e, 60)))
+                return _DEC if vals[0] in (_RAW, _DEC) else None
+            if _method_call(e, 'split', ','):
+                r = self.aeval(e.func.value, env, facts, fn, stmt, ctx)
+                if r is not _RAW and r is not _DEC:
+                    raise UnknownIdiom('%s: split(",") applied to %s' % (fn.qual, short(e.func.value)))
+                if len(e.args) != 1 or e.keywords:
+                    raise UnknownIdiom('%s: comma split with a limit: %s' % (fn.qual, short(e)))
+                self.splits_seen.add(id(e))
+                key = (ctx, id(e))
+                self.split_nodes[key] = (fn, e)
+                self.note('raw', ctx, fn, e, r is _RAW, 'the value was decoded before: %s' % short(e))
+                self.note('csv', ctx, fn, e, facts.get('csv') is True, 'csv flag not known to be set on a path to %s' % short(e))
+                return _Pieces(r is _DEC, False, key, (fn, stmt, ctx))
+            if isinstance(e.func, ast.Name) and e.func.id in ('list', 'tuple') and len(e.args) == 1 and not e.keywords:
+                v = self.aeval(e.args[0], env, facts, fn, stmt, ctx)
+                return v if isinstance(v, _Pieces) else None
+            return None
+        if isinstance(e, (ast.ListComp, ast.GeneratorExp)):
+            srcs = [self.aeval(c.iter, env, facts, fn, stmt, ctx) for c in e.generators]
+            if not any(isinstance(s, _Pieces) for s in srcs):
+                return None
+            if len(e.generators) != 1:
+                raise UnknownIdiom('%s: nested comprehension over the pieces: %s' % (fn.qual, short(e, 80)))
+            c, src = e.generators[0], srcs[0]
+            if not isinstance(c.target, ast.Name) or c.is_async:
+                raise UnknownIdiom('%s: comprehension target %s' % (fn.qual, short(c.target)))
+            for cond in c.ifs:
+                if not _is_name(cond, c.target.id):
+                    raise UnknownIdiom('%s: piece filter %s' % (fn.qual, short(cond)))
+            if _is_name(e.elt, c.target.id):
+                dec = src.decoded
+            elif self.is_decode(fn, e.elt) and len(e.elt.args) == 1 and not e.elt.keywords and _is_name(e.elt.args[0], c.target.id):
+                dec = True
+            else:
+                raise UnknownIdiom('%s: piece transformation %s' % (fn.qual, short(e.elt, 60)))
+            return _Pieces(dec, src.filtered or bool(c.ifs), src.split, (fn, stmt, ctx))
+        return None
+
+    def eval_multi(self, e, env, facts, fn, stmt, ctx, depth, cx):
+        """[(abstract value, facts)]: conditional expressions and helper calls have several outcomes."""
+        if isinstance(e, ast.IfExp):
+            outs = []
+            for truth, arm in ((True, e.body), (False, e.orelse)):
+                fx = self.edge_facts(e.test, truth, env, facts, cx)
+                if fx is not None:
+                    outs += self.eval_multi(arm, env, fx, fn, stmt, ctx, depth, cx)
+            return outs
+        if isinstance(e, ast.Call) and not self.is_decode(fn, e):
+            g = self.p.callee(fn, e)
+            args = list(e.args) + [k.value for k in e.keywords]
+            if isinstance(g, Func) and any(self.aeval(a, env, facts, fn, stmt, ctx) is _RAW
+                                           or isinstance(self.aeval(a, env, facts, fn, stmt, ctx), _Pieces) for a in args):
+                return self.inline(g, e, env, facts, fn, stmt, ctx, depth, cx)
+        v = self.aeval(e, env, facts, fn, stmt, ctx)
+        if v is None:
+            self.uses_in(e, env, facts, fn, stmt, ctx)
+        return [(v, facts)]
+
+    def uses_in(self, e, env, facts, fn, stmt, ctx):
+        """Every other use of a list of pieces stores / hands it on: the obligations are due there."""
+        if isinstance(e, ast.expr):
+            v = self.aeval(e, env, facts, fn, stmt, ctx)
+            if isinstance(v, _Pieces):
+                self.sink(v, facts, fn, stmt)
+                return
+            if v is not None:
+                return
+        for c in ast.iter_child_nodes(e):
+            if isinstance(c, (ast.expr, ast.comprehension, ast.keyword, ast.stmt)):
+                self.uses_in(c, env, facts, fn, stmt, ctx)
+
+    def sink(self, pv: _Pieces, facts, fn, stmt):
+        mf, ms, mctx = pv.made
+        self.sunk.add(pv.split)
+        self.note('dec', mctx, mf, ms, pv.decoded or facts.get('clean') is True,
+                  'undecoded pieces reach %s (nothing on the path proves the value free of what decode() rewrites)' % short(stmt, 80))
+        kb = facts.get('keep_blank')
+        self.note('blank', mctx, mf, ms, kb is not None and pv.filtered == (kb is False),
+                  'pieces %s reach %s; keep_blank is %s there' % ('with the blank ones dropped' if pv.filtered else 'including blank ones', short(stmt, 80),
+                                                                  'not decided' if kb is None else kb))
+
+    # ---- branches
+    def edge_facts(self, test, truth, env, facts, cx):
+        flags, base_supers = cx
+        new = dict(facts)
+        for nm, val in _flag_facts(test, truth, env).items():
+            if new.get(nm) is not None and new[nm] != val:
+                return None
+            new[nm] = val
+        if not new.get('clean'):
+            supers = set(base_supers) | {k for k, v in env.items() if v is _RAW}
+            if all(_eval3(test, cell, supers, flags) is (not truth) for cell in self.dirty):
+                new['clean'] = True
+        return new
+
+    # ---- helper look-through
+    def inline(self, g: Func, call, env, facts, fn, stmt, ctx, depth, cx):
+        if depth >= self.MAX_DEPTH:
+            raise UnknownIdiom('%s: helper chain too deep at %s' % (fn.qual, short(call, 60)))
+        if g.is_async or g.decorators or g.cls is not None:
+            raise UnknownIdiom('%s: the undecoded value is handed to %s (not a plain module-level helper)' % (fn.qual, g.qual))
+        a = g.node.args
+        if a.vararg or a.kwarg or any(isinstance(x, ast.Starred) for x in call.args) or any(k.arg is None for k in call.keywords):
+            raise UnknownIdiom('%s: star arguments at %s' % (fn.qual, short(call, 60)))
+        params = g.params()
+        bound = dict(zip(params, call.args))
+        for k in call.keywords:
+            if k.arg not in params or k.arg in bound:
+                raise UnknownIdiom('%s: cannot bind %s' % (fn.qual, short(call, 60)))
+            bound[k.arg] = k.value
+        if len(call.args) > len(params):
+            raise UnknownIdiom('%s: cannot bind %s' % (fn.qual, short(call, 60)))
+        flags, base_supers = cx
+        supers = set(base_supers) | {k for k, v in env.items() if v is _RAW}
+        genv, gflags = {}, {}
+        for pn, arg in bound.items():
+            v = self.aeval(arg, env, facts, fn, stmt, ctx)
+            if v is not None:
+                genv[pn] = v
+                continue
+            tbl = {cell: _eval3(arg, cell, supers, flags) for cell in self.dirty}
+            if any(x is not None for x in tbl.values()):
+                gflags[pn] = tbl
+        for pn in params:
+            if pn not in bound and any(isinstance(x, ast.Name) and x.id == pn for x in ast.walk(g.node) if not isinstance(x, ast.arg)):
+                raise UnknownIdiom('%s: %s relies on the default of %s' % (fn.qual, short(call, 60), pn))
+        gcfg = cfg_of(g, self.p)
+        self.run.use_cfg(gcfg)
+        returns = []
+        gctx = ctx + ((fn.qual, id(call)),)
+        self.walk(g, gcfg, [y for (y, l) in gcfg.succ[gcfg.entry] if l != 'exc'], genv, facts, set(), gctx, depth + 1, returns, gflags, set())
+        if not returns:
+            raise UnknownIdiom('%s: helper %s never returns' % (fn.qual, g.qual))
+        return returns
+
+    # ---- the walk
+    def walk(self, fn, cfg, starts, env, facts, stop, ctx, depth, returns, flags, base_supers):
+        cx = (flags, base_supers)
+        stack = [(s, env, facts, frozenset()) for s in starts]
+        while stack:
+            nid, env, facts, seen = stack.pop()
+            self.steps += 1
+            if self.steps > self.MAX_STEPS:
+                raise UnknownIdiom('%s: too many paths through the value handling' % fn.qual)
+            if nid in stop or nid in seen or nid == cfg.xexit:
+                continue
+            if nid == cfg.exit:
+                if returns is not None:
+                    returns.append((None, facts))
+                continue
+            n = cfg.node(nid)
+            seen = seen | {nid}
+            nxt = [(y, l) for (y, l) in cfg.succ[nid] if l != 'exc']
+            if n.kind == 'test':
+                for (y, l) in nxt:
+                    if l in ('T', 'F'):
+                        fx = self.edge_facts(n.ast, l == 'T', env, facts, cx)
+                        if fx is not None:
+                            stack.append((y, env, fx, seen))
+                    else:
+                        stack.append((y, env, facts, seen))
+                continue
+            outs = [(env, facts)]
+            if n.kind == 'stmt':
+                a = n.ast
+                if isinstance(a, (ast.Assign, ast.AnnAssign)) and a.value is not None:
+                    targets = a.targets if isinstance(a, ast.Assign) else [a.target]
+                    outs = []
+                    for val, fx in self.eval_multi(a.value, env, facts, fn, a, ctx, depth, cx):
+                        e2 = dict(env)
+                        for t in targets:
+                            if isinstance(t, ast.Name):
+                                e2.pop(t.id, None)
+                                if val is not None:
+                                    e2[t.id] = val
+                            elif isinstance(t, (ast.Tuple, ast.List)):
+                                if val is not None or self.tracked(a.value, env):
+                                    raise UnknownIdiom('%s: unpacking at %s' % (fn.qual, short(a, 80)))
+                                for x in ast.walk(t):
+                                    if isinstance(x, ast.Name):
+                                        e2.pop(x.id, None)
+                            else:
+                                if isinstance(val, _Pieces):
+                                    self.sink(val, fx, fn, a)
+                                self.uses_in(t, env, fx, fn, a, ctx)
+                        outs.append((e2, fx))
+                elif isinstance(a, ast.Return):
+                    if a.value is None:
+                        res = [(None, facts)]
+                    else:
+                        res = self.eval_multi(a.value, env, facts, fn, a, ctx, depth, cx)
+                    if returns is not None:
+                        returns.extend(res)
+                    else:
+                        for val, fx in res:
+                            if isinstance(val, _Pieces):
+                                self.sink(val, fx, fn, a)
+                    continue
+                elif isinstance(a, (ast.FunctionDef, ast.AsyncFunctionDef, ast.ClassDef)):
+                    if self.tracked(a, env):
+                        raise UnknownIdiom('%s: nested definition uses the value: %s' % (fn.qual, a.name))
+                else:
+                    self.uses_in(a, env, facts, fn, a, ctx)
+                    if isinstance(a, ast.AugAssign) and isinstance(a.target, ast.Name) and a.target.id in env:
+                        e2 = dict(env)
+                        e2.pop(a.target.id)
+                        outs = [(e2, facts)]
+                    if isinstance(a, ast.Delete):
+                        e2 = dict(env)
+                        for t in a.targets:
+                            if isinstance(t, ast.Name):
+                                e2.pop(t.id, None)
+                        outs = [(e2, facts)]
+            elif n.kind == 'iter':
+                if self.tracked(n.stmt.iter, env):
+                    raise UnknownIdiom('%s: explicit loop over %s' % (fn.qual, short(n.stmt.iter, 60)))
+                e2 = dict(env)
+                for x in ast.walk(n.stmt.target):
+                    if isinstance(x, ast.Name):
+                        e2.pop(x.id, None)
+                outs = [(e2, facts)]
+            elif n.kind == 'with':
+                e2 = dict(env)
+                for it in n.stmt.items:
+                    if self.tracked(it.context_expr, env):
+                        raise UnknownIdiom('%s: with-statement over the value' % fn.qual)
+                    if it.optional_vars is not None:
+                        for x in ast.walk(it.optional_vars):
+                            if isinstance(x, ast.Name):
+                                e2.pop(x.id, None)
+                outs = [(e2, facts)]
+            for (e2, fx) in outs:
+                for (y, _l) in nxt:
+                    stack.append((y, e2, fx, seen))
+
+
+def _shortcut_model(p, f: Func, cfg, qs, kname, vname, field):
+    """R15's model of the "nothing to decode" guards of parse_query_string: the fast-path flags (locals bound once
+    to a boolean combination of character tests on the query string / the field), the names that are superstrings
+    of every value, and the cells {has '%'} x {has '+'} a value with something to decode can be in."""
+    chars = _decoder_sensitive_chars(p)
+    params = f.params()
+    binds: Dict[str, list] = {}
+    for n in cfg.live_nodes():
+        for d in node_defs(n):
+            binds.setdefault(d.name, []).append(d)
+    supers_all = set()
+    if not binds.get(qs):
+        supers_all.add(qs)
+    if field and len(binds.get(field, ())) == 1 and binds[field][0].how == 'for':
+        supers_all.add(field)
+
+    def mentions_super(e) -> bool:
+        return any(isinstance(x, ast.Name) and x.id in supers_all for x in ast.walk(e))
+
+    flags: Dict[str, ast.AST] = {}
+
+    def readable(e) -> bool:
+        if isinstance(e, ast.Constant):
+            return True
+        if isinstance(e, ast.UnaryOp) and isinstance(e.op, ast.Not):
+            return readable(e.operand)
+        if isinstance(e, ast.BoolOp):
+            return all(readable(v) for v in e.values)
+        if isinstance(e, ast.Name):
+            return e.id in flags or not mentions_super(e)
+        if isinstance(e, ast.Compare) and len(e.ops) == 1 and isinstance(e.ops[0], (ast.In, ast.NotIn)) and isinstance(e.left, ast.Constant) \
+                and isinstance(e.comparators[0], ast.Name):
+            return True
+        return not mentions_super(e)
+
+    cands: Dict[str, ast.AST] = {}
+    for nm, ds in binds.items():
+        if nm in params or nm in (kname, vname, field) or len(ds) != 1 or ds[0].value is None or ds[0].how != 'assign':
+            continue
+        v = ds[0].value
+        if isinstance(v, (ast.Compare, ast.BoolOp, ast.Name)) or (isinstance(v, ast.UnaryOp) and isinstance(v.op, ast.Not)) \
+                or (isinstance(v, ast.Constant) and isinstance(v.value, bool)) \
+                or (isinstance(v, ast.Call) and isinstance(v.func, ast.Name) and v.func.id in ('any', 'all', 'bool')):
+            cands[nm] = v
+    grew = True
+    while grew:
+        grew = False
+        for nm, v in cands.items():
+            if nm in flags:
+                continue
+            if isinstance(v, ast.Constant) or mentions_super(v) or any(isinstance(x, ast.Name) and x.id in flags for x in ast.walk(v)):
+                flags[nm] = v
+                grew = True
+    for nm, v in flags.items():
+        if not readable(v):
+            raise UnknownIdiom('%s: the fast-path flag %s = %s is not a boolean combination of character tests' % (PQS, nm, short(v, 80)))
+    for n in cfg.live_nodes():
+        if n.kind == 'test' and n.ast is not None and mentions_super(n.ast) and not readable(n.ast):
+            raise UnknownIdiom('%s: guard %s reads the query string in a way this rule has no model for' % (PQS, short(n.ast, 80)))
+    dirty = [frozenset(c) for k in range(1, len(chars) + 1) for c in itertools.combinations(chars, k)]
+    return flags, supers_all, dirty, chars
 
 
 # ---------------------------------------------------------------------------
@@ -677,6 +1033,33 @@ def parse_qs_calls(p):
     return out
 
 
+def _options_text(p, f: Func, call, e) -> str:
+    """Text of an option read, with a local alias of the options object spelled `self.options`: a local / parameter L
+    counts as self.options at the call when `self.options = L` is the only kind of store into self.options in the
+    function, one such store lies on every path to the call, and exactly the definitions of L that reach the call
+    reach that store (L is not re-bound in between)."""
+    if not (isinstance(e, ast.Attribute) and isinstance(e.value, ast.Name) and e.value.id != 'self'):
+        return short(e)
+    local = e.value.id
+    cfg = cfg_of(f, p)
+    stores = []
+    for n in cfg.live_nodes():
+        if n.kind != 'stmt' or not isinstance(n.ast, (ast.Assign, ast.AnnAssign)):
+            continue
+        targets = n.ast.targets if isinstance(n.ast, ast.Assign) else [n.ast.target]
+        if any(isinstance(t, ast.Attribute) and t.attr == 'options' and _is_name(t.value, 'self') for t in targets):
+            stores.append(n)
+    if not stores or not all(n.ast.value is not None and _is_name(n.ast.value, local) for n in stores):
+        return short(e)
+    rd = ReachingDefs(cfg)
+    cn = node_of(cfg, call)
+    at_call = {id(d) for d in rd.at(cn, local)}
+    good = [n.id for n in stores if {id(d) for d in rd.at(n.id, local)} == at_call]
+    if not good or not flow.dominated_by_nodes(cfg, cn, good):
+        return short(e)
+    return 'self.options.' + e.attr
+
+
 def check_parse_qs_options(run, p):
     target = p.func(PQS)
     tparams = target.params()
@@ -692,7 +1075,7 @@ def check_parse_qs_options(run, p):
             if kw not in tparams:
                 raise AnchorError('%s has no parameter %s' % (PQS, kw))
             got = given.get(kw)
-            run.check(got is not None and short(got) == expr, '%s passes %s=%s to parse_query_string' % (f.qual, kw, expr), f, c,
+            run.check(got is not None and _options_text(p, f, c, got) == expr, '%s passes %s=%s to parse_query_string' % (f.qual, kw, expr), f, c,
                       witness=['%s=%s' % (kw, short(got) if got is not None else '<default False>')],
                       runtime_witness='the request option %s has no (or the wrong) effect on this stack' % expr.rsplit('.', 1)[-1])
 
@@ -1478,12 +1861,78 @@ def _eval3(e, cell, supers, flags, depth=0):
             return isinstance(e.ops[0], ast.In)
         return None
     if isinstance(e, ast.Name) and e.id in flags:
+        if isinstance(flags[e.id], dict):
+            return flags[e.id].get(cell)     # a flag handed to a helper: its truth per cell, evaluated at the call
         if depth > 4:
             raise UnknownIdiom('%s: fast-path flag %s is defined through too many steps' % (PQS, e.id))
         return _eval3(flags[e.id], cell, supers, flags, depth + 1)
     if isinstance(e, ast.NamedExpr):
         return _eval3(e.value, cell, supers, flags, depth)
     return None
+
+
+def _helper_use_harmless(p, fn: Func, call: ast.Call, use: ast.Name, depth: int) -> bool:
+    """The raw value is an argument of a call of a plain module-level helper: look through it.  True when, inside the
+    helper, the parameter standing for the value is only decoded, tested for blankness / a character, or comma-split
+    (R1 walks the helper for what becomes of the pieces), and re-bound only to its own decoded form."""
+    g = p.callee(fn, call)
+    if not isinstance(g, Func) or depth > 2 or g.is_async or g.decorators or g.cls is not None:
+        return False
+    a = g.node.args
+    if a.vararg or a.kwarg or any(isinstance(x, ast.Starred) for x in call.args):
+        return False
+    params = g.params()
+    pname = None
+    for i, x in enumerate(call.args):
+        if x is use and i < len(params):
+            pname = params[i]
+    for k in call.keywords:
+        if k.value is use and k.arg in params:
+            pname = k.arg
+    if pname is None:
+        return False
+    gcfg = cfg_of(g, p)
+    grd = ReachingDefs(gcfg)
+    gpar = _parent_map(g.node)
+
+    def is_dec(e) -> bool:
+        return isinstance(e, ast.Call) and resolves_to(p, g, e, DECODE)
+
+    for n in gcfg.live_nodes():
+        for d in node_defs(n):
+            if d.name == pname and not (d.value is not None and is_dec(d.value) and d.value.args and _is_name(d.value.args[0], pname)):
+                return False
+    for u in ast.walk(g.node):
+        if not (isinstance(u, ast.Name) and u.id == pname and isinstance(u.ctx, ast.Load)):
+            continue
+        try:
+            unid = _use_node(gcfg, u)
+        except AnchorError:
+            return False      # used inside a nested definition / dead code: not read
+        if not any(d.how == 'param' for d in grd.at(unid, pname)):
+            continue
+        up = gpar.get(id(u))
+        if isinstance(up, ast.Call) and is_dec(up) and u in up.args:
+            if up.keywords or len(up.args) != 1:
+                return False
+            continue
+        if isinstance(up, ast.Attribute) and isinstance(gpar.get(id(up)), ast.Call) and gpar.get(id(up)).func is up and up.attr == 'split':
+            continue
+        if isinstance(up, ast.UnaryOp) and isinstance(up.op, ast.Not):
+            continue
+        if isinstance(up, ast.Compare) and len(up.ops) == 1 and isinstance(up.ops[0], (ast.In, ast.NotIn)) and up.comparators[0] is u \
+                and isinstance(up.left, ast.Constant):
+            continue
+        if isinstance(up, (ast.If, ast.While, ast.IfExp)) and up.test is u:
+            continue
+        if isinstance(up, ast.BoolOp) and gcfg.node(unid).kind == 'test':
+            continue
+        if isinstance(up, ast.keyword):
+            up = gpar.get(id(up))
+        if isinstance(up, ast.Call) and not is_dec(up) and _helper_use_harmless(p, g, up, u, depth + 1):
+            continue
+        return False
+    return True
 
 
 def r15_undecoded_shortcut(run):
@@ -1503,7 +1952,6 @@ def r15_undecoded_shortcut(run):
     if not params:
         raise AnchorError('%s: no query string parameter' % PQS)
     qs = params[0]
-    chars = _decoder_sensitive_chars(p)
     run.use(p.func(DECODE))
     part = None
     for n in walk_no_nested(f.node):
@@ -1521,56 +1969,7 @@ def r15_undecoded_shortcut(run):
     rd = ReachingDefs(cfg)
 
     # fast-path flags: locals bound once to a boolean combination of character tests
-    binds: Dict[str, list] = {}
-    for n in cfg.live_nodes():
-        for d in node_defs(n):
-            binds.setdefault(d.name, []).append(d)
-    supers_all = {qs} | ({field} if field else set())
-
-    def mentions_super(e) -> bool:
-        return any(isinstance(x, ast.Name) and x.id in supers_all for x in ast.walk(e))
-
-    def readable(e) -> bool:
-        if isinstance(e, ast.Constant):
-            return True
-        if isinstance(e, ast.UnaryOp) and isinstance(e.op, ast.Not):
-            return readable(e.operand)
-        if isinstance(e, ast.BoolOp):
-            return all(readable(v) for v in e.values)
-        if isinstance(e, ast.Name):
-            return e.id in flags or not mentions_super(e)
-        if isinstance(e, ast.Compare) and len(e.ops) == 1 and isinstance(e.ops[0], (ast.In, ast.NotIn)) and isinstance(e.left, ast.Constant) \
-                and isinstance(e.comparators[0], ast.Name):
-            return True
-        return not mentions_super(e)
-
-    flags: Dict[str, ast.AST] = {}
-    cands: Dict[str, ast.AST] = {}
-    for nm, ds in binds.items():
-        if nm in params or nm in (kname, vname, field) or len(ds) != 1 or ds[0].value is None or ds[0].how != 'assign':
-            continue
-        v = ds[0].value
-        if isinstance(v, (ast.Compare, ast.BoolOp, ast.Name)) or (isinstance(v, ast.UnaryOp) and isinstance(v.op, ast.Not)) \
-                or (isinstance(v, ast.Constant) and isinstance(v.value, bool)) \
-                or (isinstance(v, ast.Call) and isinstance(v.func, ast.Name) and v.func.id in ('any', 'all', 'bool')):
-            cands[nm] = v
-    grew = True
-    while grew:
-        grew = False
-        for nm, v in cands.items():
-            if nm in flags:
-                continue
-            if isinstance(v, ast.Constant) or mentions_super(v) or any(isinstance(x, ast.Name) and x.id in flags for x in ast.walk(v)):
-                flags[nm] = v
-                grew = True
-    for nm, v in flags.items():
-        if not readable(v):
-            raise UnknownIdiom('%s: the fast-path flag %s = %s is not a boolean combination of character tests' % (PQS, nm, short(v, 80)))
-    for n in cfg.live_nodes():
-        if n.kind == 'test' and n.ast is not None and mentions_super(n.ast) and not readable(n.ast):
-            raise UnknownIdiom('%s: guard %s reads the query string in a way this rule has no model for' % (PQS, short(n.ast, 80)))
-
-    dirty = [frozenset(c) for k in range(1, len(chars) + 1) for c in itertools.combinations(chars, k)]
+    flags, supers_all, dirty, chars = _shortcut_model(p, f, cfg, qs, kname, vname, field)
 
     def is_decode(e) -> bool:
         return isinstance(e, ast.Call) and resolves_to(p, f, e, DECODE)
@@ -1592,6 +1991,10 @@ def r15_undecoded_shortcut(run):
             return True   # truthiness
         if isinstance(up, ast.BoolOp) and cfg.node(_use_node(cfg, use)).kind == 'test':
             return True   # operand of a branch condition
+        if isinstance(up, ast.keyword):
+            up = par.get(id(up))
+        if isinstance(up, ast.Call) and not is_decode(up) and _helper_use_harmless(p, f, up, use, 0):
+            return True   # handed to a module-level helper that itself only decodes / blank-tests / comma-splits it (R1 reads the pieces)
         return False
 
     n_ob = 0
@@ -1851,7 +2254,7 @@ def check(run):
     run.assume('E5 assumptions: str/bytes methods and in-range slices are total; UTF-8 encoding of text without lone surrogates is total; '
                'a `transform` callable passed to get_param_as_list signals failure with ValueError (documented contract)')
     run.assume('media handlers used by get_param_as_json report failures as HTTPBadRequest subclasses (C12)')
-    run.rule('R1', r1_split_then_decode, 'parse_query_string: split on & and first =, CSV split before decode, blank handling', floor=15)
+    run.rule('R1', r1_split_then_decode, 'parse_query_string: split on & and first =, CSV split before decode, blank handling', floor=11)
     run.rule('R2', r2_total, 'parse_query_string / decode / _join_tokens_* are total on str input (4 functions examined)', floor=1)
     run.rule('R3', r3_getters, 'typed getters conform to the documented template', floor=90)
     run.rule('R4', r4_to_query_str, 'to_query_str encodes keys and values', floor=8)
